@@ -43,6 +43,9 @@ type c18Job struct {
 	// Reuse: every goroutine fills ONE map object again and again (what a CSV ingestion loop does): a writer that
 	// keeps a reference to the caller's map beyond the call sees the next row's values
 	Reuse bool `json:"reuse"`
+	// Wide: every row carries that many additional low-cardinality columns (w000, w001, ...): one AddRow call then does
+	// hundreds of insertions, long enough for whatever it does between its first and last one to be observed
+	Wide int `json:"wide,omitempty"`
 }
 
 type c18Op struct {
@@ -63,7 +66,14 @@ type c18Result struct {
 
 // c18Row is the row goroutine g adds as its i-th: a unique tag plus 2-4 values
 // derived from it, so that the orchestrator can rebuild every row.
-func c18Row(g, i int, dup bool) oracle.Row {
+func c18Row(g, i int, dup bool, wide ...int) oracle.Row {
+	if len(wide) > 0 && wide[0] > 0 {
+		r := c18Row(g, i, dup)
+		for k := 0; k < wide[0]; k++ {
+			r[fmt.Sprintf("w%03d", k)] = fmt.Sprint((g + 7*i + k) % 3)
+		}
+		return r
+	}
 	if dup {
 		r := oracle.Row{"a": fmt.Sprint(i % 3), "b": fmt.Sprint((g + i) % 5), "c": "x"}
 		if i%4 == 0 {
@@ -164,7 +174,7 @@ func workerC18(args []string) int {
 							break
 						}
 					}
-					row := c18Row(g, i, job.Dup)
+					row := c18Row(g, i, job.Dup, job.Wide)
 					if job.Reuse {
 						clear(own)
 						for k, v := range row {
@@ -274,6 +284,16 @@ func runC18(r *vf.Run) {
 					k++
 				}
 			}
+		}
+	}
+	// (round 7) wide rows: 257..700 additional columns per row, few rows, many goroutines, both writers
+	for wi, wide := range []int{257, 300, 700, 256, 1001} {
+		for _, w := range []string{"mem", "big"} {
+			g := []int{8, 16, 4}[(wi+k)%3]
+			total := []int{64, 64, 24, 64, 16}[wi] // (cells per job stay below 20 000: the race-detector build of the big writer does about a thousand a second)
+			id := fmt.Sprintf("job%03d-%s-wide%d-n%d-g%d", k, w, wide, total, g)
+			jobs = append(jobs, c18Job{ID: id, Writer: w, Goroutines: g, Total: total, Yield: k%2 == 0, Ticket: true, Reuse: k%3 == 1, Wide: wide, Out: filepath.Join(dir, id+".updog")})
+			k++
 		}
 	}
 	// children: chunks of jobs
@@ -456,7 +476,7 @@ func c18Check(r *vf.Run, cid string, job c18Job, jr c18Result) {
 	// the flushed index = sequential insertion in id order
 	rows := make([]oracle.Row, n)
 	for _, op := range jr.Ops {
-		rows[op.ID] = c18Row(op.G, op.I, job.Dup)
+		rows[op.ID] = c18Row(op.G, op.I, job.Dup, job.Wide)
 	}
 	ds := &gen.Dataset{ID: job.ID, Rows: rows, Unique: "tag"}
 	if job.Dup {
@@ -496,9 +516,17 @@ func c18Check(r *vf.Run, cid string, job c18Job, jr c18Result) {
 		if id%step != 0 {
 			continue
 		}
+		nc := 0
 		for c, v := range row {
 			if c != "tag" && !check(oracle.And(tag, oracle.Eq(c, v)), 1, "all values of a row sit on one single row") {
 				return
+			}
+			// and no value of another row sits on this one (wide rows: a sample of their columns)
+			if nc++; strings.HasPrefix(c, "w") && len(c) == 4 && nc <= 40 {
+				other := fmt.Sprint((int(v[0]-'0') + 1) % 3)
+				if !check(oracle.And(tag, oracle.Eq(c, other)), 0, "no value of another row sits on this row") {
+					return
+				}
 			}
 		}
 	}
